@@ -219,9 +219,9 @@ pub struct InboundHTLCOutput { pub htlc_id: u64, pub state: InboundHTLCState }
     r ==> has_removed_entry(final(status).state) && attribution_of(final(status).state) == attribution_data,
     !r ==> *final(status) == *old(status),
 //@mutant claimed_inbound_htlc_skipped_when_handing_the_entries_back
-    Some(attribution_data) }, _ => None,
+    Some(attribution_data) }, _ => None, } } else { None }
 //@with
-    None }, _ => None,
+    None }, _ => None, } } else { None }
 //@end
 }
 }
